@@ -301,7 +301,8 @@ class Parser:
 
     def expect(self, typ: str) -> TokenInfo | None:
         tok = self._tokenizer.peek()
-        if tok.string == typ:
+        # literal text (the middle of an f-string, raw macro text) can spell a keyword or an operator without being one
+        if tok.string == typ and tok.type not in (Token.FSTRING_MIDDLE, Token.MACRO_PARAM):
             return self._tokenizer.getnext()
         return None
 
